@@ -41,4 +41,44 @@ package config
 //@   noframe
 //@   requires nw != nil && nw.logger != nil
 //@   callsite set requires[C19] keep-last-good: len(errs) == 0
+//@   loop 1 invariant (isnil(namespaces) || fresh(namespaces)) && (forall i in 0..len(namespaces) :: namespaces[i] != nil)
+//@   loop 3 invariant (isnil(namespaces) || fresh(namespaces)) && (forall i in 0..len(namespaces) :: namespaces[i] != nil)
 //@   loop 1 step[C19] stored-reader-stays-readable: err == nil ==> has(nw.files.byPath, path) && !rdconsumed(nw.files.byPath[path])
+
+// the visible namespaces are swapped as a whole: a new map that holds every namespace handed
+// in, under its name, and nothing else
+//@ func (*memoryNamespaceManager).set
+//@   props C19 C13
+//@   requires s != nil && (forall i in 0..len(nn) :: nn[i] != nil)
+//@   modifies s.byName
+//@   ensures[C19] whole-new-map: s.byName != nil && fresh(s.byName)
+//@   ensures[C19] every-namespace-visible: forall i in 0..len(nn) :: has(s.byName, nn[i].Name)
+//@   ensures[C19] nothing-else-visible: forall k string :: has(s.byName, k) ==> (exists i in 0..len(nn) :: nn[i].Name == k && s.byName[k] != nil)
+//@   loop 1 invariant s != nil && s.byName != nil && fresh(s.byName)
+//@   loop 1 invariant forall i in 0..$n :: has(s.byName, nn[i].Name)
+//@   loop 1 invariant forall k string :: has(s.byName, k) ==> (exists i in 0..$n :: nn[i].Name == k && s.byName[k] != nil)
+
+//@ func (*oplConfigWatcher).handleChange
+//@   props C19 C13
+//@   noframe
+//@   requires nw != nil && nw.logger != nil && e != nil && nw.files.byPath != nil
+
+//@ func (*oplConfigWatcher).handleRemove
+//@   props C19 C13
+//@   noframe
+//@   requires nw != nil && nw.logger != nil && e != nil
+
+// legacy (JSON/YAML/TOML) watcher: a file that fails to parse yields a NamespaceFile without a
+// namespace, a file that parses one with a fresh namespace; handleChange's keep-last-good
+// branch is keyed by e.Source(), a value no contract expression can name (unexported field of
+// a dependency's type) - not claimed (DESIGN.md C19)
+//@ func (*NamespaceWatcher).handleChange
+//@   props C19 C13
+//@   noframe
+//@   requires nw != nil && nw.logger != nil && e != nil && nw.namespaces != nil
+
+//@ func (*NamespaceWatcher).readNamespaceFile
+//@   props C19 C13
+//@   noframe
+//@   requires nw != nil && nw.logger != nil
+//@   ensures[C19] result-describes-the-file: result != nil ==> fresh(result) && result.Name == source && (result.namespace == nil || fresh(result.namespace))
